@@ -9,6 +9,7 @@ import (
 	"math/rand"
 	"os"
 	"runtime"
+	"strings"
 	"sync"
 	"time"
 
@@ -192,7 +193,13 @@ func runRWScenario(rec *rwRecorder, rnd *rand.Rand, names, readers, writesPer, r
 		}(r)
 	}
 	close(start)
-	wg.Wait()
+	finished := make(chan struct{})
+	go func() { wg.Wait(); close(finished) }()
+	select {
+	case <-finished:
+	case <-time.After(30 * time.Second):
+		return fmt.Errorf("HANG: writers and readers of global definitions did not finish (%s)", hangSite())
+	}
 	select {
 	case e := <-errs:
 		return e
@@ -222,6 +229,11 @@ func cmdGlobals(args []string) {
 		names := 1 + rnd.Intn(2)
 		readers := 1 + rnd.Intn(4)
 		if err := runRWScenario(rec, rand.New(rand.NewSource(*seed*1000+int64(i))), names, readers, 3+rnd.Intn(10), 4+rnd.Intn(20)); err != nil {
+			if strings.HasPrefix(err.Error(), "HANG") {
+				b, _ := json.Marshal(map[string]interface{}{"hang": err.Error(), "scenario": i})
+				fmt.Fprintf(protoOut, "%s\n", b)
+				break // the stuck goroutines stay; nothing more can be judged in this process
+			}
 			fmt.Fprintln(os.Stderr, "infra:", err)
 			os.Exit(2)
 		}
